@@ -47,7 +47,7 @@ def main():
             verdict["demo_mutated_tail"] = p1.stdout.decode(errors="replace")[-600:]
             if not a.skip_tests:
                 t = sh(["/venv/bin/python", "-m", "pytest", "-q", "-p", "no:cacheprovider",
-                        "--timeout=900", "-n", "12"], cwd=wt, timeout=3600)
+                        "--timeout=900", "-n", "6"], cwd=wt, timeout=3600)
                 out = t.stdout.decode(errors="replace")
                 m = re.search(r"(\d+) passed", out)
                 verdict["tests_passed"] = int(m.group(1)) if m else 0
